@@ -210,4 +210,5 @@ class condense_assumed:
     trusted = ("assumed contract: PreferenceProfile.condense_ballots preserves the total weight per ranking",)
 
     def ensures(self, result, k):
-        return wrank(result.ballots, len(result.ballots), k) == wrank(self.ballots, len(self.ballots), k)
+        return (wrank(result.ballots, len(result.ballots), k) == wrank(self.ballots, len(self.ballots), k)
+                and result.candidates == self.candidates)
